@@ -199,6 +199,9 @@ pub enum Stmt {
     Line { parts: Vec<Part>, tags: Vec<String>, divert: Option<Target> },
     Assign { name: String, expr: Expr, kind: AssignKind, temp_decl: bool },
     Divert(Target),
+    /// only as the FIRST statement of a choice body: the divert is written on the choice line
+    /// itself (`* text -> target`), so the choice's text runs on into the target's first line
+    InlineDivert(Target),
     Tunnel(String),
     TunnelReturn,
     Thread(String),
@@ -272,7 +275,7 @@ fn render_stmt(s: &Stmt, ind: usize, level: usize, out: &mut String) {
             };
             writeln!(out, "{pad}~ {}{name} {op} {}", if *temp_decl { "temp " } else { "" }, expr.render()).unwrap();
         }
-        Stmt::Divert(t) => writeln!(out, "{pad}-> {}", t.render()).unwrap(),
+        Stmt::Divert(t) | Stmt::InlineDivert(t) => writeln!(out, "{pad}-> {}", t.render()).unwrap(),
         Stmt::Tunnel(t) => writeln!(out, "{pad}-> {t} ->").unwrap(),
         Stmt::TunnelReturn => writeln!(out, "{pad}->->").unwrap(),
         Stmt::Thread(t) => writeln!(out, "{pad}<- {t}").unwrap(),
@@ -318,9 +321,15 @@ fn render_stmt(s: &Stmt, ind: usize, level: usize, out: &mut String) {
                     }
                     l.push_str(&render_parts(&c.end));
                 }
+                let mut body = &c.body[..];
+                if let Some(Stmt::InlineDivert(t)) = body.first() {
+                    let text = l.trim_end().to_string();
+                    l = format!("{text} -> {}", t.render());
+                    body = &body[1..];
+                }
                 out.push_str(l.trim_end());
                 out.push('\n');
-                render_stmts(&c.body, ind + 1, lvl, out);
+                render_stmts(body, ind + 1, lvl, out);
             }
             if let Some(g) = &w.gather {
                 let mark = "- ".repeat(lvl);
